@@ -2,6 +2,7 @@ import PdshVerif.Base.Hex
 import PdshVerif.Mod.Load
 import PdshVerif.Mod.LoadTie
 import PdshVerif.Mod.Now
+import PdshVerif.Mod.SortCursor
 import PdshVerif.Mod.Spec
 import Driver.Util
 
@@ -16,7 +17,7 @@ import Driver.Util
     OBJ   := x (dlopen fails) | n (no pdsh_module_info) | m/TYPE/NAME/PRIO/PERS/INIT/OPTS
              TYPE,NAME := HEX | ~ (NULL)   INIT := ~ | 0 (fails) | 1   OPTS := ~ (NULL) | e (empty) | ROW+ROW..
              ROW := CODE.HASARG.PERS
-  `pdshmodel mod model [nopers] [notie] [wrapprio] [nosameobj] [rename]`:
+  `pdshmodel mod model [nopers] [notie] [wrapprio] [nosameobj] [rename] [cursor]`:
     without a switch: THE CODE AS IT IS NOW, `Mod.Now.loadAll` (the definition the theorems of Props/C17.lean are about).
     Each switch selects an older form of one function (the check probes the binary and passes the switches that fit,
     so that a revert of a repair is reported with a replay and not as a broken correspondence):
@@ -26,6 +27,9 @@ import Driver.Util
       nosameobj  _mod_load_dynamic before fde0027 (a second name of a registered object is registered again; the
                  real code then crashes, F17-SAMEOBJ -- the check does not compare such cases)
       rename     findings/C17-sameobj-tie.patch applied (`Mod.Now.loadAllRename`; F17-SAMEOBJ-TIE)
+      cursor     list_sort executed as its POINTER LOOP (`Mod.listSortCursor`: the cursors ppPrev / pp / ppPos of list.c),
+                 `Mod.Now.loadAllCursor`; equal to the form without the switch by `Now.loadAllCursor_eq` /
+                 `Now.loadDirCursor_eq` (Props/C17.lean `loader_runs_pointer_loop`) -- the check runs every case both ways
        ok|fatal L=FILE:ACT,... C=FILE,... O=HEX D=FILE,... U=CODE:i|n|hFILE.ARG,...
   `pdshmodel mod spec` :  the case line additionally carries the observation
        obs=ok|fatal oL=FILE:ACT,... oC=FILE,... oD=FILE,... oU=CODE:i|n|hFILE.ARG,...
@@ -189,16 +193,20 @@ structure Variant where
   wrapPrio : Bool
   noSameObj : Bool
   rename : Bool
+  cursor : Bool := false
 
 def Variant.isNow (v : Variant) : Bool := !v.noPers && !v.noTie && !v.wrapPrio && !v.noSameObj
 
 def runVariant (v : Variant) (oid : List Char → Nat) (e : Env) : Result :=
-  if v.isNow then (if v.rename then Now.loadAllRename oid e else Now.loadAll oid e)
+  if v.isNow then
+    (if v.cursor then Now.loadAllCursor v.rename oid e
+     else if v.rename then Now.loadAllRename oid e else Now.loadAll oid e)
   else
     let env := if v.noPers then e else persFirstEnv e
     let beats := if v.noTie then beatsPrio else Tie.beats
     let cmp := if v.noTie then cmpF else if v.wrapPrio then PrioWrap.cmpFWrap else Now.cmpF
     if v.noSameObj then loadDirG beats cmp env (chooseDir env)
+    else if v.cursor then Now.loadDirCursor v.rename oid beats cmp env (chooseDir env)
     else Now.loadDirG v.rename oid beats cmp env (chooseDir env)
 
 def stepModel (v : Variant) (line : String) : String :=
@@ -241,13 +249,13 @@ def main (args : List String) : IO UInt32 := do
   let stdin ← IO.getStdin
   match args with
   | "model" :: vs =>
-    if vs.all (fun v => ["nopers", "notie", "wrapprio", "nosameobj", "rename"].contains v) then
+    if vs.all (fun v => ["nopers", "notie", "wrapprio", "nosameobj", "rename", "cursor"].contains v) then
       let v : Variant := ⟨vs.contains "nopers", vs.contains "notie", vs.contains "wrapprio", vs.contains "nosameobj",
-                          vs.contains "rename"⟩
+                          vs.contains "rename", vs.contains "cursor"⟩
       Driver.forLines stdin () (fun _ l => ((), stepModel v l))
       return 0
     else
-      IO.eprintln "usage: pdshmodel mod model [nopers] [notie] [wrapprio] [nosameobj] [rename]"; return 2
+      IO.eprintln "usage: pdshmodel mod model [nopers] [notie] [wrapprio] [nosameobj] [rename] [cursor]"; return 2
   | ["spec"] => Driver.forLines stdin () (fun _ l => ((), stepSpec l)); return 0
   | _ => IO.eprintln "usage: pdshmodel mod model|spec"; return 2
 
